@@ -146,6 +146,11 @@ pub fn harness_error(msg: &str) -> ! {
     std::process::exit(2);
 }
 
+/// Where replay files go: `$VERIF_REPLAYS_DIR` (used when evaluating seeded changes) or `<root>/replays`.
+fn replays_root() -> PathBuf {
+    std::env::var("VERIF_REPLAYS_DIR").ok().filter(|s| !s.is_empty()).map(PathBuf::from).unwrap_or_else(|| verif_root().join("replays"))
+}
+
 pub fn verif_root() -> PathBuf {
     PathBuf::from(std::env::var("VERIF_ROOT").unwrap_or_else(|_| "/verif".to_string()))
 }
@@ -197,7 +202,7 @@ fn parse_args<E: Engine>() -> Args {
         dump: std::env::var("VERIF_DUMP").ok().filter(|s| !s.is_empty()).map(PathBuf::from),
         max_cases: std::env::var("VERIF_MAX_CASES").ok().and_then(|s| s.parse().ok()),
         file: None,
-        no_evidence: false,
+        no_evidence: std::env::var("VERIF_NO_EVIDENCE").map(|v| v == "1").unwrap_or(false),
         alt_exe: None,
         build: None,
     };
@@ -696,7 +701,7 @@ fn batch<E: Engine>(args: &Args) -> i32 {
         if let Some((_, _, what)) = kf.known.iter().find(|(p, k, _)| p == &args.property && k == key) {
             println!("KNOWN-FINDING: property={} key={} {}", args.property, key, what);
             // keep an (unminimised) replay of the first occurrence next to the others
-            let dir = verif_root().join("replays").join(&args.property);
+            let dir = replays_root().join(&args.property);
             let _ = std::fs::create_dir_all(&dir);
             let replay = json!({
                 "property": args.property, "engine": E::name(), "build": f.tag, "tier": args.tier.name(), "verif_seed": args.seed,
@@ -717,7 +722,7 @@ fn batch<E: Engine>(args: &Args) -> i32 {
             (case.clone(), f.violation.clone(), 0, 0)
         };
         let to_size = serde_json::to_string(&min_case).map(|s| s.len()).unwrap_or(0);
-        let dir = verif_root().join("replays").join(&args.property);
+        let dir = replays_root().join(&args.property);
         let _ = std::fs::create_dir_all(&dir);
         let path = if f.index > u64::MAX / 2 {
             dir.join(format!("{}-s{}-regress{}.json", sanitise(key), args.seed, u64::MAX - f.index))
